@@ -176,7 +176,7 @@ JOBS['C10'] = [
 
 # ---------------------------------------------------------------- C14
 META['C14'] = {
-    'bounds': {'quick': '26 pattern templates (literal and operator patterns, anchors, word boundaries, empty-matching, up to 2 groups) with symbolic placeholder characters over {a A 1 U+00E9} x replacement of 2 symbolic pieces (literal, \\0..\\3, escaped character) x g on/off x ignorecase on/off x target line of <=2 characters over that alphabet plus space, inside a 3-line buffer',
+    'bounds': {'quick': '28 pattern templates (literal and operator patterns, anchors, an anchored alternative next to a free one, a bracket ending in a backslash, word boundaries, empty-matching, up to 2 groups) with symbolic placeholder characters over {a A 1 U+00E9} x replacement of 2 symbolic pieces (literal, \\0..\\3, escaped character) x g on/off x ignorecase on/off x target line of <=2 characters over that alphabet plus space, inside a 3-line buffer',
                'thorough': 'target line of <=3 characters, 3 replacement pieces'},
     'outside': 'longer lines and replacements; patterns outside the templates; the remembered-pattern form s//rep/ (second job)',
     'assumptions': ['reference semantics of the scan: the original line, left to right, non-overlapping, one character forward after an empty match; judged in whole-line context (harness/ref_re.h)'],
@@ -189,9 +189,9 @@ JOBS['C14'] = [
 
 # ---------------------------------------------------------------- C13
 META['C13'] = {
-    'bounds': {'quick': '13 pattern templates (literals, anchors, word boundaries, empty-matching, group, alternation) with symbolic placeholder characters over {a b U+00E9} x buffers of 2 lines of <=2 characters (<=3 for the templates x, xy, x*) over that alphabet plus space x every cursor position x both directions (lbuf_search); vi level: / ? n N with counts on a fixed buffer family',
+    'bounds': {'quick': '13 pattern templates (literals, anchors, word boundaries, empty-matching, group, alternation) with symbolic placeholder characters over {a b U+00E9} x buffers of 2 lines of <=2 characters (<=3 for the templates x, xy, x*) over that alphabet plus space x every cursor position x both directions (lbuf_search); vi level: all sequences of 2 commands from {/ab ?ab n N / ? 2n 2N 2/ab, a pattern ending in an escaped backslash, /ab/+1 (line offset, kept by n and N), ^A} from every cursor position of a 5-line buffer with 8 occurrences',
                'thorough': '3 lines, ignorecase symbolic'},
-    'outside': 'longer lines/buffers; patterns outside the templates; ^A word search (vi job only in thorough)',
+    'outside': 'longer lines/buffers; patterns outside the templates; ^A and the escaped-backslash pattern only as the last command of a sequence (they change the pattern the occurrence model is built for)',
     'assumptions': ['a match may begin on the line terminator (the cursor is clamped afterwards by the vi loop); successive matches are enumerated left to right until the scan reaches the terminator'],
 }
 JOBS['C13'] = [
@@ -207,7 +207,7 @@ JOBS['C13'] = [
 
 # ---------------------------------------------------------------- C15
 META['C15'] = {
-    'bounds': {'quick': 'buffers of 5 lines each symbolically matching or not x all ranges a,b x g and v x 13 command lists (d, s/a/b/, s/^/V/, -1d, +1d, $d, a+text, d|pu, +1s/b/a/, +1s/a/b/, nested g, s|-1d, s|$d); then u; a 509-line buffer whose line table grows (512) while a global adds lines',
+    'bounds': {'quick': 'buffers of 5 lines each symbolically matching or not x all ranges a,b x g, v and g! x 15 command lists (d, s/a/b/, s/^/V/, -1d, +1d, $d, a+text, d|pu, +1s/b/a/, +1s/a/b/, nested g with and without a range, s|-1d, s|$d, a list whose first command fails on some lines); then u; a 509-line buffer whose line table grows (512) while a global adds lines',
                'thorough': '6 lines; 1021-line buffer (table growth at 1024)'},
     'outside': 'command lists outside the menu; buffers above the bound (the line-table growth during a global is covered by C01/C05 only for plain edits)',
     'assumptions': ['a command that fails inside the list aborts the global (model: stop); the model is written from the property text over line identities'],
